@@ -16,6 +16,7 @@ the tables are read (the concrete part is what the Go side replays).
 import Scalibr.Base.Wire
 import Scalibr.Spec.Upgrade
 import Scalibr.Spec.UpgradeConfig
+import Scalibr.Spec.EntryPoints
 import Scalibr.Model.OverrideMulti
 open Scalibr Scalibr.Wire Scalibr.Upgrade
 
@@ -64,8 +65,10 @@ def roundsOf (u : Override.U) (level : Nat) : Nat → Nat → Nat
     | none => 0
     | some b => roundsOf u level f b + 1
 
-def handleOv (level : Nat) (tb : List String) : String :=
-  match tb with
+def handleOv (level : Nat) (tb0 : List String) : String :=
+  -- a seventh table token: the dependency carries a classifier / type (older case lines have six tokens)
+  let typed := tb0.getD 6 "0" = "1"
+  match tb0.take 6 with
   | [n, ranks, vk, nv, aff, dm] =>
     match n.toNat?, natsDot ranks, vk.toNat?, nv.toNat?, parseMatrix dm with
     | some n, some ranks, some vk, some nv, some m =>
@@ -73,7 +76,7 @@ def handleOv (level : Nat) (tb : List String) : String :=
       let d : Nat → Nat → Nat := fun i j => (matGet m i j).getD dOther
       let rank : Nat → Nat := fun i => ranks.getD i 0
       let u : Override.U := ⟨List.range n, rank, d, nv, fun v r => (affRows.getD v []).getD r false⟩
-      let final := Override.loop u level (n + 1) vk
+      let final := Override.loopTyped typed u level (n + 1) vk
       let greater := Override.versionsGreater rank u.vs vk
       -- the specification's verdict per version: the base itself, or an acceptable move from it
       let spec := (List.range n).map fun i => i = vk || acceptable level rank d vk i
@@ -211,6 +214,14 @@ def handleCf (entries : String) (tb : List String) : String :=
     s!"r=ok cfg={joinWith "," shown} get={joinWith "." (qs.map fun q => toString (configGet cfg q))} spec={joinWith "." (qs.map fun q => toString (intended es q))} wf={if wf then "1" else "0"}"
   | _, _ => "bad-op"
 
+/-- `ep <kind>`: what Spec.EntryPoints asks of the call -/
+def handleEp (k : Nat) : String :=
+  match Scalibr.EntryPoints.want k with
+  | some .refuse => "r=ok want=refuse"
+  | some .succeed => "r=ok want=succeed"
+  | some .flagged => "r=ok want=flagged"
+  | none => "bad-op"
+
 def handle (line : String) : String :=
   match line.splitOn " | " with
   | [conc, tables] =>
@@ -222,6 +233,7 @@ def handle (line : String) : String :=
         if op = "rx" then handleRx level tb else if op = "ov" then handleOv level tb
         else if op = "sg" then handleSg level tb else if op = "mo" then handleMo tb else if op = "up" then handleUp tb
         else if op = "cf" then handleCf ((conc.splitOn " ").getD 2 "-") tb
+        else if op = "ep" then handleEp level
         else if op = "rl" then "r=ok"     -- relax end to end: the only claim is termination (the call returns); see C11_terminates_*
         else "bad-op"
       | none => "bad-op"
